@@ -94,6 +94,14 @@ def fixture() -> Dict[str, Any]:
     sh('openssl', 'req', '-new', '-x509', '-sha256', '-days', '30', '-subj', '/CN=vf platform CA', '-key', P('sysca-key.pem'), '-out', P('sysca-cert.pem'),
        '-addext', 'basicConstraints=critical,CA:TRUE')
     leaf('osca', 'good.test', all_san, 'sysca', ['-days', '30'])
+    # a trusted origin whose certificate subject carries characters that are special in openssl's -subj syntax
+    # (e.g. the Danish company form "A/S"): interception copies the origin's subject into the certificate it issues
+    sh('openssl', 'ecparam', '-genkey', '-name', 'prime256v1', '-noout', '-out', P('oddsubject-key.pem'))
+    sh('openssl', 'req', '-new', '-subj', '/C=DK/O=ACME A\\/S, Inc.+Co=1/OU=R\\/D/CN=good.test', '-key', P('oddsubject-key.pem'), '-out', P('oddsubject.csr'))
+    with open(P('oddsubject.ext'), 'w') as f:
+        f.write('subjectAltName=' + all_san + '\n')
+    sh('openssl', 'x509', '-req', '-in', P('oddsubject.csr'), '-CA', P('oca-cert.pem'), '-CAkey', P('oca-key.pem'), '-CAcreateserial',
+       '-extfile', P('oddsubject.ext'), '-out', P('oddsubject-cert.pem'), '-days', '30')
     os.environ['SSL_CERT_FILE'] = P('sysca-cert.pem')
     os.environ.pop('SSL_CERT_DIR', None)
     leaf('wrongname', 'other.test', 'DNS:other.test', 'oca', ['-days', '30'])
@@ -416,7 +424,7 @@ def _complete(x: bytes) -> bool:
 
 def evaluate(c: Dict[str, Any]) -> Tuple[List[Any], Dict[str, Any]]:
     r = converse(c)
-    bad = c['origin'] != 'good'
+    bad = c['origin'] not in ('good', 'oddsubject')
     optout = c['host'].startswith('optout.')
     hostkind = 'ipv4' if c['host'][0].isdigit() else 'ipv6' if c['host'].startswith('[') else 'name'
     feat = {'origin': c['origin'], 'insecure': c['insecure'], 'optout': optout, 'host': hostkind}
@@ -512,7 +520,7 @@ def cleanup() -> None:
 
 @st.composite
 def cases(draw: Any) -> Dict[str, Any]:
-    origin = draw(st.sampled_from(['good', 'good', 'good', 'selfsigned', 'wrongname', 'expired', 'osca']))
+    origin = draw(st.sampled_from(['good', 'good', 'good', 'selfsigned', 'wrongname', 'expired', 'osca', 'oddsubject']))
     host = draw(st.sampled_from(['good.test', 'a.good.test', 'localhost', 'optout.good.test', '127.0.0.1', '[::1]', LONG_NAME]))
     req = draw(G.request_spec(form='origin', host=host.encode(), framings=('none', 'cl', 'chunked'), max_body=300, max_headers=5,
                               versions=(b'HTTP/1.1',), plain_chunked=True))
